@@ -1,5 +1,6 @@
 #!/bin/sh
 # usage: tools/seedconfirm.sh <m-dir e.g. /var/tmp/mut/m1> <ID>
+# (nextest writes its junit report under <workspace>/target/nextest, not under CARGO_TARGET_DIR)
 # Confirms a seeded change independently in the seeding agent's scratch worktree: applies out/<ID>/patch.diff,
 # builds, runs the repository's stable suite (must stay green) and the demonstration (must fail with the
 # change, pass without). Writes <m-dir>/out/<ID>/confirm.json.
@@ -18,8 +19,10 @@ git apply $O/patch.diff || { echo "{\"id\":\"$ID\",\"error\":\"patch does not ap
 cargo build --offline >/dev/null 2>&1 || { git checkout -q -- .; echo "{\"id\":\"$ID\",\"error\":\"patched build failed\"}" > $O/confirm.json; exit 1; }
 demo_mut="n/a"
 if [ -f $O/demo.pl ]; then demo_mut=$(cd $O && timeout 300 $T/debug/scryer-prolog demo.pl </dev/null 2>&1 | tail -3 | tr '\n' ' ' | cut -c1-300); fi
-cargo nextest run --workspace --no-fail-fast --tool-config-file pb:/w/lib/nextest.toml --profile pb --test-threads 8 --offline > $O/suite.log 2>&1
-python3 - "$T" "$ID" "$demo_clean" "$demo_mut" "$O" <<'PY'
+rm -f $R/target/nextest/pb/junit.xml $T/nextest/pb/junit.xml
+# cli_tests is on the baseline's always-fail list and only burns its 300 s timeout
+cargo nextest run --workspace --no-fail-fast --tool-config-file pb:/w/lib/nextest.toml --profile pb --test-threads 8 --offline -E 'not test(cli_tests)' > $O/suite.log 2>&1
+python3 - "$R/target" "$ID" "$demo_clean" "$demo_mut" "$O" <<'PY'
 import json, sys, xml.etree.ElementTree as ET
 T, ID, dc, dm, O = sys.argv[1:6]
 want = set(json.load(open('/root/.vp/BASELINE.json'))['stable_pass'])
